@@ -4820,8 +4820,8 @@ _R = 'agent/resource_manager/base.py'
 # proposed fix for F05 (MPIRun accumulates the dplace option in self._dplace)
 FIX_F05 = [
     (_L + 'mpirun.py',
-     "        if '_dplace' in self.name:\n            self._dplace += ' -c '\n            self._dplace += ','.join(core_list)\n",
-     "        dplace = self._dplace\n        if '_dplace' in self.name:\n            dplace += ' -c '\n            dplace += ','.join(core_list)\n"),
+     "        if '_dplace' in self.name.lower():\n            self._dplace += ' -c '\n            self._dplace += ','.join(core_list)\n",
+     "        dplace = self._dplace\n        if '_dplace' in self.name.lower():\n            dplace += ' -c '\n            dplace += ','.join(core_list)\n"),
     (_L + 'mpirun.py',
      "             self._dplace, self._omplace, hosts_string, exec_path)",
      "             dplace, self._omplace, hosts_string, exec_path)"),
